@@ -103,6 +103,20 @@ func c18Values(md int) {
 	vapi.Check(e.Key == e.String(), "key is the canonical string")
 }
 
+// VerifC18Canonical: the canonical string (String(), which is also the cache key) is itself a
+// textual form: it parses back to the protocol, host, port and timeout it was made from - also
+// for the boundary values 0 and 1. (Values are per-path constants here: the engine renders
+// undetermined symbolic integers opaquely, so a decimal round trip needs determined values.)
+func VerifC18Canonical() {
+	e := Endpoint{Proto: []string{"tcp", "udp"}[vapi.Choice("proto", 2)], Host: "h.example",
+		Port:    []int32{0, 1, 80, 65535}[vapi.Choice("port", 4)],
+		Timeout: []int32{0, 1, 3000, 2147483647}[vapi.Choice("timeout", 4)]}
+	e2 := Parse(e.String())
+	vapi.Check(e2.Proto == e.Proto && e2.Host == e.Host && e2.Port == e.Port && e2.Timeout == e.Timeout, "the canonical string parses back to the same protocol, host, port and timeout")
+	vapi.Check(e2.Key == e.String(), "the key of the parsed endpoint is the canonical string it was parsed from")
+	vapi.Reach("c18-canonical")
+}
+
 // VerifC18Defaults: only the protocol (and optionally the host): documented defaults.
 func VerifC18Defaults() {
 	ps, wantProto, wantTcp := c18Proto()
